@@ -98,6 +98,39 @@ def Ref.sideOf : Ref → String
   | some ⟨.un .. :: _, _⟩ => "right"
   | _ => ""
 
+/-- `ref.get_root()` -/
+def Ref.get_root : Ref → Ref
+  | some ⟨k, e⟩ => some ⟨[], plug k e⟩
+  | none => none
+
+/-- `ref.get_root_side()`: the link of the root that leads to the node ("" for the root itself,
+where Python raises) -/
+def ctxRootSide : Ctx → String
+  | [] => ""
+  | [f] => match f with | .binL .. => "left" | .binR .. => "right" | .un .. => "right"
+  | _ :: fs => ctxRootSide fs
+
+def Ref.get_root_side : Ref → String
+  | some ⟨k, _⟩ => ctxRootSide k
+  | none => ""
+
+/-- number of ancestors -/
+def Ref.depth : Ref → Nat
+  | some ⟨k, _⟩ => k.length
+  | none => 0
+
+/-- some node of the class in the sub-tree (`len(ref.find_type(cls)) > 0`) -/
+def anyHolds (c : Cls) : Ex → Bool
+  | e@(.const ..) => c.holds e
+  | e@(.var ..) => c.holds e
+  | e@(.un _ _ x) => c.holds e || anyHolds c x
+  | e@(.bin _ _ l r) => c.holds e || anyHolds c l || anyHolds c r
+
+def Ref.anyOfType (r : Ref) (c : Cls) : Bool :=
+  match r with
+  | some ⟨_, e⟩ => anyHolds c e
+  | none => false
+
 /-- `ref.value` of a constant -/
 def Ref.value : Ref → Option Rat
   | some ⟨_, .const _ v⟩ => some v
